@@ -255,7 +255,15 @@ class Unphase(_Worlds, ScratchMixin, SubCheck):
         maxp = 3 if tier == "quick" else 4
         for p in range(1, maxp + 1):
             for q in range(1, maxp + 1):
-                for t in ((3,) if tier == "quick" else (0, 1, 2, 3)):
+                if tier == "quick":
+                    tagopts = (3,)
+                elif p == 4 and q == 4:
+                    tagopts = (0,)  # ~150 GT paths per call: keep the largest pair free of tag bits
+                elif 4 in (p, q):
+                    tagopts = (0, 3)
+                else:
+                    tagopts = (0, 1, 2, 3)
+                for t in tagopts:
                     out.append(dict(fam="B", nsamp=2, records=[[p, q]], tags=[t], rich=1, hv=1))
         if tier == "quick":
             out += [dict(fam="B", nsamp=2, records=[[4, 2]], tags=[3], rich=1, hv=1), dict(fam="B", nsamp=2, records=[[2, 4]], tags=[0], rich=0, hv=0)]
@@ -268,10 +276,10 @@ class Unphase(_Worlds, ScratchMixin, SubCheck):
                     out.append(dict(fam="C", nsamp=1, records=[None if a is None else [a], None if b is None else [b]], tags=list(tp), rich=0, hv=1))
         if tier != "quick":
             for pa in ([2, 2], [1, 3]):
-                for pb in ([2, 2], None, [3, 2]):
+                for pb in ([2, 2], None, [2, 1]):
                     for t in (0, 3):
                         out.append(dict(fam="D", nsamp=2, records=[pa, pb], tags=[t, 3 - t], rich=1, hv=1))
-            out.append(dict(fam="E", nsamp=1, records=[[2], [2], [2]], rich=0, hv=1))
+            out.append(dict(fam="E", nsamp=1, records=[[2], [2], [2]], tags=[3, 0, 1], rich=0, hv=1))
         return out
 
     def bounds(self, tier):
